@@ -33,7 +33,7 @@ AB = [(1, 0), (0, 0), (0.5, 0), (1, 1), (0, 1), (0.5, 1), (1.0, 0.0), (0.0, 1.0)
 
 
 def gen_cases(tier, seed):
-    n = 60 if tier == "quick" else 360
+    n = 60 if tier == "quick" else 720
     cases = []
     for i in range(n):
         rng = bases.rng_for("C15", seed, tier, i)
